@@ -3,11 +3,13 @@ import CentrifugeVerif.Props.C12
 /-!
 # C37 — connection limits are enforced
 
-* channel limit: `channel_limit_partial` (regular client subscribes, their completions/failures in any
-  order, unsubscribes and server-side subscribes keep `|channels ∪ reservations| ≤ limit`),
-  `limit_plus_one_rejected`, `server_side_at_limit_disconnects`; the *full* statement (including map
-  subscribes whose `OnSubscribe` answer arrives later) is **false** for the code as written — see the
-  `decide`d counter-witness `channel_limit_counterexample` (finding C37-1);
+* channel limit: `channel_limit` (every sequence of events — regular and map client subscribes with
+  their answers arriving in any order, failures, unsubscribes, server-side subscribes — keeps the
+  client-side subscriptions plus in-flight reservations ≤ limit), `channel_limit_regular_total`
+  (without map subscribes even the server-side entries are included in the bound),
+  `limit_plus_one_rejected`, `server_side_at_limit_disconnects`.  Finding C37-1 (two deferred map
+  subscribes both passing the limit check) was fixed in /repo by commit 516266d2; the model mirrors the
+  re-check and the former counter-witness is now `channel_limit_former_counterexample_fixed`;
 * channel name length: `channel_name_too_long_rejected`;
 * slow consumer: `slow_iff_oversize` (shared with C12, stated in `Props/C12.lean`).
 -/
@@ -55,14 +57,13 @@ theorem step_regular_inv (s : LState) (e : Ev) (he : e.regular = true) (hl : 0 <
   | mapReserve ch => simp [Ev.regular] at he
   | mapCommit ch gen => simp [Ev.regular] at he
 
-/-- **Channel limit, regular flow** (`_partial`: map subscribes excluded, see below).  Starting from a
-fresh connection with a positive `ClientChannelLimit`, after *any* sequence of regular client subscribe
-attempts, completions and failures of the in-flight ones in any order, unsubscribes and server-side
-subscribes, the subscriptions plus in-flight reservations never exceed the limit — hence neither do
-the client-side subscriptions.
-
-Full statement (false for the code, finding C37-1): the same for every `List Ev`. -/
-theorem channel_limit_partial (limit maxLen : Nat) (hl : 0 < limit) (es : List Ev)
+/-- **Channel limit, regular flow, all entries.**  Without map subscribes, after *any* sequence of
+regular client subscribe attempts, completions and failures of the in-flight ones in any order,
+unsubscribes and server-side subscribes, *all* entries of `c.channels` (server-side ones included) plus
+reservations never exceed the limit.  (With a map subscription still loading, a server-side subscribe is
+not counted against it — see the `example` at the end — which is why the general theorem
+`channel_limit` bounds the client-side entries.) -/
+theorem channel_limit_regular_total (limit maxLen : Nat) (hl : 0 < limit) (es : List Ev)
     (hreg : ∀ e ∈ es, e.regular = true) :
     let s := run { limit := limit, maxLen := maxLen } es
     s.total ≤ limit ∧ s.clientSubs ≤ limit := by
@@ -100,18 +101,183 @@ theorem server_side_at_limit_disconnects (s : LState) (ch : Nat) (hc : s.closed 
     (step s (.serverSub ch)).2 = .disconnectChannelLimit := by
   simp [step, hc, hl, hfull]
 
-/-- **Finding C37-1** (the unchanged code violates the property): two map subscribes whose
-`OnSubscribe` answers arrive after both were validated both pass the limit check (validation does not
-reserve), so a connection with `ClientChannelLimit = 1` ends up with 2 client-side subscriptions. -/
-theorem channel_limit_counterexample :
-    (run { limit := 1, maxLen := 0 }
-      [.subMapValidate 4 2, .subMapValidate 5 2, .mapReserve 4, .mapCommit 4 1, .mapReserve 5, .mapCommit 5 2]).clientSubs
-      = 2 := by decide
+/-! ### The full invariant (all events, including deferred map subscribes) -/
+
+theorem clientEntries_le_total (s : LState) : s.clientEntries ≤ s.total := by
+  simp only [LState.clientEntries, LState.total]
+  exact Nat.add_le_add_right (filter_length_le _ _) _
+
+theorem filter_filter_length_le {α : Type} (p q : α → Bool) (l : List α) :
+    ((l.filter q).filter p).length ≤ (l.filter p).length :=
+  ((List.filter_sublist (l := l) (p := q)).filter p).length_le
+
+/-- removing every entry with key `ch` from a list that has one makes it strictly shorter -/
+theorem filter_ne_length_lt (l : List (Nat × Nat)) (ch gen : Nat) (q : Nat × Nat → Bool)
+    (hq : ∀ e, e.1 = ch → q e = false)
+    (h : ∃ e ∈ l, e.1 = ch ∧ e.2 = gen) : (l.filter q).length + 1 ≤ l.length := by
+  induction l with
+  | nil => obtain ⟨e, he, _⟩ := h; cases he
+  | cons a l ih =>
+    obtain ⟨e, he, hech, _⟩ := h
+    by_cases ha : a.1 = ch
+    · rw [List.filter_cons, hq a ha]
+      simp only [Bool.false_eq_true, if_false, List.length_cons]
+      exact Nat.succ_le_succ (filter_length_le _ _)
+    · have hel : e ∈ l := by
+        rcases List.mem_cons.mp he with rfl | h
+        · exact absurd hech ha
+        · exact h
+      have := ih ⟨e, hel, hech, ‹_›⟩
+      rw [List.filter_cons]
+      split
+      · simp only [List.length_cons]; omega
+      · simp only [List.length_cons]; omega
+
+/-- completing a reservation keeps the number of client-side entries -/
+theorem complete_map_clientCount (l : List Entry) (ch gen : Nat) :
+    ((l.map (fun e => if e.ch = ch ∧ e.gen = gen ∧ e.st = .reserved then { e with st := ChSt.subscribed false } else e)).filter
+      Entry.isClient).length = (l.filter Entry.isClient).length := by
+  induction l with
+  | nil => rfl
+  | cons a l ih =>
+    rw [List.map_cons, List.filter_cons, List.filter_cons]
+    by_cases hc : a.ch = ch ∧ a.gen = gen ∧ a.st = .reserved
+    · have h1 : Entry.isClient a = true := by simp [Entry.isClient, hc.2.2]
+      rw [if_pos hc, h1]
+      simp only [Entry.isClient, if_true, List.length_cons, ih]
+    · rw [if_neg hc]
+      split
+      · simp only [List.length_cons, ih]
+      · exact ih
+
+/-- one step of *any* kind keeps the client-side entries within the limit -/
+theorem step_client_inv (s : LState) (e : Ev) (hl : 0 < s.limit) (ht : s.clientEntries ≤ s.limit) :
+    (step s e).1.clientEntries ≤ s.limit := by
+  have hct := clientEntries_le_total s
+  cases e with
+  | subReg ch len =>
+    simp only [step]
+    split
+    · exact ht
+    · split
+      · exact ht
+      · split
+        · exact ht
+        · rename_i hfull
+          have hlt : s.total < s.limit := by omega
+          simp only [LState.clientEntries, List.filter_append, List.length_append, List.filter_cons,
+            List.filter_nil, Entry.isClient, if_true, List.length_cons, List.length_nil] at ht hct ⊢
+          omega
+  | subMapValidate ch len =>
+    simp only [step]
+    repeat' split
+    all_goals exact ht
+  | mapReserve ch =>
+    simp only [step]
+    split
+    · exact ht
+    · split
+      · exact ht
+      · rename_i hfull
+        have hlt : s.total < s.limit := by omega
+        simp only [LState.clientEntries, List.length_append, List.length_cons, List.length_nil] at ht hct ⊢
+        omega
+  | mapCommit ch gen =>
+    simp only [step]
+    split
+    · rename_i hany
+      have hex : ∃ e ∈ s.mapSubscribing, e.1 = ch ∧ e.2 = gen := by
+        simp only [List.any_eq_true, decide_eq_true_eq] at hany
+        exact hany
+      have h1 := filter_ne_length_lt s.mapSubscribing ch gen (fun e => decide (e.1 ≠ ch))
+        (fun e he => by simp [he]) hex
+      have h2 := filter_filter_length_le Entry.isClient (fun e : Entry => decide (e.ch ≠ ch)) s.channels
+      simp only [LState.clientEntries, List.filter_append, List.length_append, List.filter_cons,
+        List.filter_nil, Entry.isClient, if_true, List.length_cons, List.length_nil] at ht ⊢
+      omega
+    · exact ht
+  | complete ch gen ok =>
+    simp only [step]
+    split
+    · split
+      · simp only [LState.clientEntries] at ht ⊢
+        rw [complete_map_clientCount]; exact ht
+      · have h2 := filter_filter_length_le Entry.isClient
+          (fun e : Entry => decide (¬ (e.ch = ch ∧ e.gen = gen ∧ e.st = .reserved))) s.channels
+        simp only [LState.clientEntries] at ht ⊢
+        omega
+    · exact ht
+  | unsub ch =>
+    have h2 := filter_filter_length_le Entry.isClient (fun e : Entry => decide (e.ch ≠ ch)) s.channels
+    have h3 := filter_length_le (fun e : Nat × Nat => decide (e.1 ≠ ch)) s.mapSubscribing
+    simp only [step, LState.clientEntries] at ht ⊢
+    omega
+  | serverSub ch =>
+    simp only [step]
+    split
+    · exact ht
+    · split
+      · exact ht
+      · split
+        · exact ht
+        · simp only [LState.clientEntries, List.filter_append, List.length_append, List.filter_cons,
+            List.filter_nil, Entry.isClient, Bool.false_eq_true, if_false, List.length_nil] at ht ⊢
+          omega
+
+/-- **Channel limit** (full strength).  Starting from a fresh connection with a positive
+`ClientChannelLimit`, after *any* sequence of events — regular and map client subscribe attempts, the
+continuations of their `OnSubscribe` answers in any order (also long after other attempts were
+validated), failures, unsubscribes, server-side subscribes — the client-side subscriptions plus in-flight
+client reservations (placeholders in `c.channels`, loading entries in `c.mapSubscribing`) never exceed the
+limit; in particular the connection never holds more than `limit` client-side subscriptions. -/
+theorem channel_limit (limit maxLen : Nat) (hl : 0 < limit) (es : List Ev) :
+    let s := run { limit := limit, maxLen := maxLen } es
+    s.clientEntries ≤ limit ∧ s.clientSubs ≤ limit := by
+  have key : ∀ (es : List Ev) (s : LState), s.limit = limit → s.clientEntries ≤ limit →
+      (run s es).clientEntries ≤ limit := by
+    intro es
+    induction es with
+    | nil => intro s _ h; exact h
+    | cons e es ih =>
+      intro s hlim ht
+      simp only [run]
+      exact ih _ (by rw [(step_limit s e).1, hlim]) (by have := step_client_inv s e (by omega) (by omega); omega)
+  have ht := key es { limit := limit, maxLen := maxLen } rfl (by simp [LState.clientEntries])
+  refine ⟨ht, Nat.le_trans ?_ ht⟩
+  simp only [LState.clientSubs, LState.clientEntries]
+  refine Nat.le_trans ?_ (Nat.le_add_right _ _)
+  -- committed client-side subscriptions are among the client-side entries
+  induction (run { limit := limit, maxLen := maxLen } es).channels with
+  | nil => exact Nat.le_refl _
+  | cons a l ih =>
+    rw [List.filter_cons, List.filter_cons]
+    by_cases h1 : a.st = .subscribed false
+    · have : Entry.isClient a = true := by simp [Entry.isClient, h1]
+      simp only [h1, decide_true, if_true, this, List.length_cons]; omega
+    · have : decide (a.st = .subscribed false) = false := by simp [h1]
+      rw [this]
+      simp only [Bool.false_eq_true, if_false]
+      split
+      · simp only [List.length_cons]; omega
+      · exact ih
+
+/-- the former counter-witness of finding C37-1 (fixed by /repo commit 516266d2): two map subscribes
+validated before either answer arrives — the second reservation is now refused with
+`ErrorLimitExceeded` and the connection stays at its limit of 1 -/
+theorem channel_limit_former_counterexample_fixed :
+    let s1 := run { limit := 1, maxLen := 0 } [.subMapValidate 4 2, .subMapValidate 5 2, .mapReserve 4, .mapCommit 4 1]
+    (step s1 (.mapReserve 5)).2 = .limitExceeded ∧
+      (run s1 [.mapReserve 5, .mapCommit 5 2]).clientSubs = 1 := by decide
+
+/-- non-vacuity for `channel_limit`: deferred map and regular subscribes interleaved up to the limit -/
+example :
+    (run { limit := 2, maxLen := 0 } [.subMapValidate 4 2, .subReg 1 2, .subMapValidate 5 2, .mapReserve 4,
+      .mapReserve 5, .complete 1 1 true, .mapCommit 4 2]).clientSubs = 2 := by decide
 
 /-- examined, not a finding: server-side `Client.Subscribe` compares `len(c.channels)` alone with the
 limit, so a map subscription that is still loading (entry in `mapSubscribing`) is not counted and the
 connection can end up with `limit + 1` entries — of which only `limit` are client-side, so the statement
-("never more *client-side* subscriptions than the limit") still holds on this trace -/
+("never more *client-side* subscriptions than the limit", `channel_limit`) holds on this trace -/
 example :
     let s := run { limit := 2, maxLen := 0 } [.subReg 1 2, .complete 1 1 true, .subMapValidate 2 2, .mapReserve 2,
       .serverSub 3, .mapCommit 2 2]
